@@ -117,14 +117,17 @@ def r2(tree, rep):
     rep.check("C16.R2", "connector_connection_lost reports the loss to the timer whenever one exists", ok, site(cl, MGR), key="C16.R2:connection_lost:lost_connection")
     for name, kind in (("_stop_using_connection", "method"), ("abandon_connection", "output")):
         fn = tree.func(MGR, "Manager", name)
-        g = build(fn)
-        tt = [t for t in g.nodes(lambda s: isinstance(s, ast.If)) if isinstance(g.stmt[t].test, ast.Compare) and is_self_attr(g.stmt[t].test.left, "_timer")
-              and isinstance(g.stmt[t].test.ops[0], ast.IsNot)]
+        g = build(fn, split=True)
+        from ..cfg import none_atom as _none_atom
+        no_timer = _none_atom(lambda e: is_self_attr(e, "_timer"))
+        armed, unarmed = g.cond_edges(no_timer, False), g.cond_edges(no_timer, True)      # `is not None` / `is None`, whichever way it is spelled
         cn = g.call_nodes(lambda c: dotted(c.func) == "self._timer.cancel")
         clr = g.nodes(lambda s: isinstance(s, ast.Assign) and any(is_self_attr(t, "_timer") for t in s.targets) and const(s.value) is None)
-        ok = len(tt) == 1 and len(cn) == 1 and len(clr) == 1 and g.must_pass(tt) \
-            and g.must_pass(cn, start=g.branch_targets(tt[0], 'T'), to=[g.exit], explicit_only=True) \
-            and g.must_pass(clr, start=g.branch_targets(tt[0], 'T'), to=[g.exit], explicit_only=True) and not g.precedes(cn, clr)
+        ok = bool(armed) and len(cn) >= 1 and len(clr) >= 1 \
+            and g.exit not in g.reach(g.entry, avoid_edges=set(armed) | set(unarmed), explicit_only=True) \
+            and all(g.exit not in g.reach([y], avoid_nodes=set(cn), explicit_only=True) for (x, y, l) in armed) \
+            and all(g.exit not in g.reach([y], avoid_nodes=set(clr), explicit_only=True) for (x, y, l) in armed) \
+            and not g.precedes(cn, clr) and not g.only_when(cn, no_timer, False)
         rep.check("C16.R2", "Manager.%s cancels a pending interval timer and clears it" % name, ok, site(fn, MGR), key="C16.R2:%s:timer" % name,
                   what="an interval timer of the old connection survives %s and is later counted against the next connection" % name)
     sr = tree.func(MGR, "Manager", (reconnect_method if mk and reconnect_method else "_signal_reconnect"))
